@@ -330,7 +330,10 @@ impl Report {
                     "more": vs.iter().skip(1).take(4).map(|v| json!({"what": v.what, "replay": v.replay})).collect::<Vec<_>>(),
                     "how_to_rerun": format!("cd /verif && ./check {} {} --replay {}", ctx.property, ctx.tier.as_str(), path.display()),
                 });
-                let _ = std::fs::write(&path, serde_json::to_string_pretty(&doc).unwrap());
+                // a --replay run re-reports what it reproduces but never overwrites the stored counterexamples
+                if ctx.replay.is_none() {
+                    let _ = std::fs::write(&path, serde_json::to_string_pretty(&doc).unwrap());
+                }
                 eprintln!("violation key={} ({} occurrences): {}", key, count_of(key, vs.len()), one_line(&vs[0].what));
                 lines.push(format!("VIOLATION property={} replay={}", ctx.property, path.display()));
             }
